@@ -61,7 +61,7 @@ def rule_pxd_vs_header(ctx, m):
                         ok = False
                         what = 'parameter %d: pxd type `%s %s` vs header `%s %s` (different type class: silent conversion)' % (k, pt, pn, ht, hn)
                         break
-                if ok and tclass(rtype) != tclass(proto.rtype) and not ({tclass(rtype)[0], tclass(proto.rtype)[0]} <= {'bool', 'int'}):
+                if ok and rtype.strip() != 'void' and tclass(rtype) != tclass(proto.rtype) and not ({tclass(rtype)[0], tclass(proto.rtype)[0]} <= {'bool', 'int'}):
                     ok = False
                     what = 'return type: pxd `%s` vs header `%s`' % (rtype, proto.rtype)
             ctx.check(ok, 'R-SIG', mod.path, name, 'extern %s' % name, what or '', line=line)
